@@ -7,52 +7,23 @@ From Boltons Require Import Lib.Prelude Spec.C18_Spec Model.C18_Model
 Section LineCalls.
   Variable C : list N.
   Hypothesis V : Forall uvalid C.
-  Hypothesis P : plain C.
 
-  Lemma ss_readline_spec s k : RI C k (ss_buf s) ->
-    snd (ss_readline s) = take_line (skipn k C) /\
-    RI C (k + length (snd (ss_readline s))) (ss_buf (fst (ss_readline s))) /\
-    ss_tell (fst (ss_readline s)) = ss_tell s + length (snd (ss_readline s)) /\
-    same_cfg s (fst (ss_readline s)).
+  Lemma ss_next_line s k : RI C k (ss_buf s) -> 1 <= ss_chunk s -> take_line (skipn k C) <> [] ->
+    ss_next s = (fst (ss_readline s None), Ok (take_line (skipn k C))).
   Proof.
-    intro I. unfold ss_readline.
-    pose proof (rd_readline_spec C V P k (ss_buf s) I) as [R1 R2].
-    destruct (rd_readline (ss_buf s)) as [e ret]. cbn [fst snd] in *.
-    unfold ss_with, same_cfg. cbn. auto.
-  Qed.
-
-  Lemma ss_readlines_spec s k : RI C k (ss_buf s) ->
-    snd (ss_readlines s) = lines (skipn k C) /\
-    RI C (length C) (ss_buf (fst (ss_readlines s))) /\
-    ss_tell (fst (ss_readlines s)) = ss_tell s + (length C - k) /\
-    same_cfg s (fst (ss_readlines s)).
-  Proof.
-    intro I. unfold ss_readlines.
-    assert (K : k <= length C) by (destruct I as [_ [K _]]; exact K).
-    pose proof (rd_read_spec C k (ss_buf s) None None V I (or_introl eq_refl)) as [R1 [R2 _]].
-    destruct (rd_read (ss_buf s) None None) as [e data]. cbn [fst snd] in *.
-    rewrite R1 in *. rewrite skipn_length in R2. replace (k + (length C - k)) with (length C) in R2 by lia.
-    rewrite gsplit_b_plain by (now apply Forall_skipn).
-    rewrite concat_lines, skipn_length.
-    unfold ss_with, same_cfg. cbn. auto.
-  Qed.
-
-  Lemma ss_next_line s k : RI C k (ss_buf s) -> take_line (skipn k C) <> [] ->
-    ss_next s = (fst (ss_readline s), Ok (take_line (skipn k C))).
-  Proof.
-    intros I NE. unfold ss_next.
-    pose proof (ss_readline_spec s k I) as [R1 _].
-    destruct (ss_readline s) as [s1 line]. cbn [fst snd] in *. subst line.
+    intros I Ch NE. unfold ss_next.
+    pose proof (ss_readline_spec C V s k None I Ch) as [R1 _]. cbn [line_result] in R1.
+    destruct (ss_readline s None) as [s1 line]. cbn [fst snd] in *. subst line.
     destruct (take_line (skipn k C)); [congruence|reflexivity].
   Qed.
 
-  Lemma ss_next_stop s : RI C (length C) (ss_buf s) ->
+  Lemma ss_next_stop s : RI C (length C) (ss_buf s) -> 1 <= ss_chunk s ->
     exists s', ss_next s = (s', Raise StopIteration) /\
                RI C (length C) (ss_buf s') /\ ss_tell s' = ss_tell s /\ same_cfg s s'.
   Proof.
-    intro I. unfold ss_next.
-    pose proof (ss_readline_spec s (length C) I) as [R1 [R2 [R3 R4]]].
-    destruct (ss_readline s) as [s1 line]. cbn [fst snd] in *.
+    intros I Ch. unfold ss_next.
+    pose proof (ss_readline_spec C V s (length C) None I Ch) as [R1 [R2 [R3 R4]]]. cbn [line_result] in R1.
+    destruct (ss_readline s None) as [s1 line]. cbn [fst snd] in *.
     rewrite skipn_all in R1. cbn in R1. subst line. cbn [length nonempty] in *.
     rewrite Nat.add_0_r in *.
     destruct (RI_at_end _ _ R2) as [Pn [Bn Pe]].
@@ -68,34 +39,72 @@ Section LineCalls.
     rewrite !skipn_all. repeat split; auto. exists []. auto.
   Qed.
 
-  Lemma ss_iter_spec : forall fuel s acc k, RI C k (ss_buf s) ->
+  Lemma ss_iter_spec : forall fuel s acc k, RI C k (ss_buf s) -> 1 <= ss_chunk s ->
     length (lines (skipn k C)) < fuel ->
     exists s', ss_iter fuel s acc = (s', OLines (acc ++ lines (skipn k C))) /\
                RI C (length C) (ss_buf s') /\ ss_tell s' = ss_tell s + (length C - k) /\ same_cfg s s'.
   Proof.
-    induction fuel as [|fuel IH]; intros s acc k I F; [lia|].
+    induction fuel as [|fuel IH]; intros s acc k I Ch F; [lia|].
     assert (K : k <= length C) by (destruct I as [_ [K _]]; exact K).
     cbn [ss_iter].
     destruct (take_line (skipn k C)) as [|x l] eqn:E.
     - apply (proj1 (take_line_nil_iff _)) in E.
       assert (k = length C).
       { apply (f_equal (@length N)) in E. rewrite skipn_length in E. cbn in E. lia. }
-      rewrite H in *. clear H. destruct (ss_next_stop s I) as [s' [N1 [N2 [N3 N4]]]].
+      rewrite H in *. clear H. destruct (ss_next_stop s I Ch) as [s' [N1 [N2 [N3 N4]]]].
       rewrite N1. rewrite skipn_all. cbn [lines]. rewrite app_nil_r.
       exists s'. split; [reflexivity|]. split; [exact N2|]. split; [lia|exact N4].
     - assert (NE : take_line (skipn k C) <> []) by (rewrite E; discriminate).
       assert (NE' : skipn k C <> []) by (intro Z; rewrite Z in E; discriminate).
-      rewrite (ss_next_line s k I NE).
-      pose proof (ss_readline_spec s k I) as [R1 [R2 [R3 R4]]].
-      set (s1 := fst (ss_readline s)) in *. rewrite R1 in R2, R3.
+      rewrite (ss_next_line s k I Ch NE).
+      pose proof (ss_readline_spec C V s k None I Ch) as [R1 [R2 [R3 R4]]]. cbn [line_result] in R1.
+      set (s1 := fst (ss_readline s None)) in *. rewrite R1 in R2, R3.
       set (d := take_line (skipn k C)) in *.
       rewrite (lines_unfold _ NE') in F |- *. fold d in F |- *. cbn [length] in F.
       assert (Sk : skipn (length d) (skipn k C) = skipn (k + length d) C) by (now rewrite <- skipn_add).
       rewrite Sk in *.
-      destruct (IH s1 (acc ++ [d]) (k + length d) R2 ltac:(lia)) as [s' [J1 [J2 [J3 J4]]]].
+      assert (Ch1 : 1 <= ss_chunk s1) by (destruct R4 as [_ R4]; lia).
+      destruct (IH s1 (acc ++ [d]) (k + length d) R2 Ch1 ltac:(lia)) as [s' [J1 [J2 [J3 J4]]]].
       assert (Kd : k + length d <= length C) by (destruct R2 as [_ [Kd _]]; exact Kd).
       exists s'. rewrite J1, <- app_assoc. split; [reflexivity|]. split; [exact J2|]. split; [lia|].
       eapply same_cfg_trans; eassumption.
+  Qed.
+
+  (* readlines(hint) *)
+  Lemma ss_readlines_spec : forall fuel s hint total acc k, RI C k (ss_buf s) -> 1 <= ss_chunk s ->
+    length (lines (skipn k C)) < fuel ->
+    exists s', ss_readlines fuel s hint total acc =
+                 (s', OLines (acc ++ take_hint hint total (lines (skipn k C)))) /\
+               RI C (k + total_len (take_hint hint total (lines (skipn k C)))) (ss_buf s') /\
+               ss_tell s' = ss_tell s + total_len (take_hint hint total (lines (skipn k C))) /\
+               same_cfg s s'.
+  Proof.
+    induction fuel as [|fuel IH]; intros s hint total acc k I Ch F; [lia|].
+    cbn [ss_readlines].
+    pose proof (ss_readline_spec C V s k None I Ch) as [R1 [R2 [R3 R4]]]. cbn [line_result] in R1.
+    destruct (ss_readline s None) as [s1 line]. cbn [fst snd] in *. subst line.
+    destruct (take_line (skipn k C)) as [|x l] eqn:E.
+    - cbn [nonempty length] in *. apply (proj1 (take_line_nil_iff _)) in E. rewrite E.
+      cbn [lines take_hint]. unfold total_len. cbn [concat length]. rewrite app_nil_r, !Nat.add_0_r in *.
+      exists s1. auto.
+    - assert (NE' : skipn k C <> []) by (intro Z; rewrite Z in E; discriminate).
+      cbn [nonempty]. set (d := x :: l) in *.
+      rewrite (lines_unfold _ NE') in F |- *. rewrite E in F |- *.
+      match type of F with context [length (d :: ?X)] => change (length (d :: X)) with (S (length X)) in F end.
+      cbn [take_hint].
+      assert (Sk : skipn (length d) (skipn k C) = skipn (k + length d) C) by (now rewrite <- skipn_add).
+      rewrite Sk in *.
+      destruct ((0 <? hint) && (hint <=? total + length d)) eqn:H.
+      + exists s1. split; [reflexivity|]. unfold total_len. cbn [concat]. rewrite app_nil_r. auto.
+      + assert (Ch1 : 1 <= ss_chunk s1) by (destruct R4 as [_ R4]; lia).
+        destruct (IH s1 hint (total + length d) (acc ++ [d]) (k + length d) R2 Ch1) as [s' [J1 [J2 [J3 J4]]]];
+          [lia|].
+        exists s'. rewrite J1, <- app_assoc. split; [reflexivity|].
+        unfold total_len in *. cbn [concat]. rewrite app_length.
+        split; [replace (k + (length d + length (concat (take_hint hint (total + length d) (lines (skipn (k + length d) C))))))
+                   with (k + length d + length (concat (take_hint hint (total + length d) (lines (skipn (k + length d) C))))) by lia;
+                exact J2|].
+        split; [lia|]. eapply same_cfg_trans; eassumption.
   Qed.
 End LineCalls.
 
@@ -143,12 +152,11 @@ Qed.
 
 Lemma ss_step0_ref f s op :
   SI f s -> ref_pre KString f op = true -> op_valid op ->
-  (is_line_op op = true -> plain (rf_data f)) ->
   snd (ss_step0 s op) = snd (ref_step f op) /\
   SI (fst (ref_step f op)) (fst (ss_step0 s op)) /\
   same_cfg s (fst (ss_step0 s op)).
 Proof.
-  intros [V [Ch [T I]]] Pre Val Pl.
+  intros [V [Ch [T I]]] Pre Val.
   set (L := length (rf_data f)) in *. set (k := Nat.min (rf_pos f) L) in *.
   assert (K : k <= L) by (unfold k; lia).
   assert (Hk : skipn k (rf_data f) = rest f) by (unfold k, L, rest; apply skipn_min).
@@ -157,7 +165,7 @@ Proof.
   assert (Mk : forall s' f', ss_chunk s' = ss_chunk s -> ss_tell s' = rf_pos f' -> rf_data f' = rf_data f ->
                  RI (rf_data f) (Nat.min (rf_pos f') L) (ss_buf s') -> SI f' s').
   { intros s' f' H1 H2 H3 H4. unfold SI. rewrite H3, H1. auto. }
-  destruct op as [d| |n|[lim|]|[|hint]| | | |off wh| | | |ds|]; cbn [ref_pre] in Pre; try discriminate.
+  destruct op as [d| |n|lim|hint| | | |off wh| | | |ds|]; cbn [ref_pre] in Pre; try discriminate.
   - (* write *)
     cbn [ss_step0 ref_step fst snd]. apply Nat.eqb_eq in Pre.
     destruct (ss_write_spec f s d (conj V (conj Ch (conj T I))) Pre Val) as [W1 W2].
@@ -176,35 +184,42 @@ Proof.
     rewrite E. cbn [fst snd]. split; [reflexivity|]. split; [|exact R4].
     apply Mk; auto; [apply R4|cbn; lia|cbn].
     replace (Nat.min (rf_pos f + length ret) L) with (k + length ret) by (unfold k in *; lia). exact R2.
-  - (* readline *)
-    cbn [ss_step0 ref_step].
-    pose proof (ss_readline_spec (rf_data f) V (Pl eq_refl) s k I) as [R1 [R2 [R3 R4]]].
-    destruct (ss_readline s) as [s' ret]. cbn [fst snd] in *. rewrite Hk in R1.
-    rewrite <- R1. split; [reflexivity|]. split; [|exact R4].
+  - (* readline(limit) *)
+    cbn [ss_step0].
+    pose proof (ss_readline_spec (rf_data f) V s k lim I Ch) as [R1 [R2 [R3 R4]]].
+    destruct (ss_readline s lim) as [s' ret]. cbn [fst snd] in *. rewrite Hk in R1.
+    assert (E : ref_step f (ReadLine lim) = (advance f (length ret), OData ret)).
+    { rewrite R1. destruct lim; reflexivity. }
     assert (Lret : length ret <= L - k).
-    { rewrite R1, <- Lr. apply take_line_length. }
+    { rewrite R1, <- Lr. pose proof (take_line_length (rest f)).
+      destruct lim; cbn [line_result]; [rewrite firstn_length|]; lia. }
+    rewrite E. cbn [fst snd]. split; [reflexivity|]. split; [|exact R4].
     apply Mk; auto; [apply R4|cbn; lia|cbn].
     replace (Nat.min (rf_pos f + length ret) L) with (k + length ret) by (unfold k in *; lia). exact R2.
-  - (* readlines *)
+  - (* readlines(hint) *)
     cbn [ss_step0 ref_step].
-    pose proof (ss_readlines_spec (rf_data f) V (Pl eq_refl) s k I) as [R1 [R2 [R3 R4]]].
-    destruct (ss_readlines s) as [s' ret]. cbn [fst snd] in *. rewrite Hk in R1.
-    rewrite take_hint_0, total_len_lines. rewrite R1.
-    split; [reflexivity|]. split; [|exact R4]. rewrite Lr.
-    apply Mk; auto; [apply R4|cbn; fold L; lia|cbn].
-    replace (Nat.min (rf_pos f + (L - k)) L) with L by (unfold k in *; lia). exact R2.
+    assert (D1 : rf_data (ef_stream (ss_buf s)) = utf8_enc (rf_data f)) by (destruct I as [_ [_ [D _]]]; exact D).
+    destruct (ss_readlines_spec (rf_data f) V (S (length (rf_data (ef_stream (ss_buf s))))) s hint 0 [] k I Ch
+                ltac:(rewrite D1; now apply lines_fuel)) as [s' [J1 [J2 [J3 J4]]]].
+    rewrite J1, Hk in *. cbn [fst snd app].
+    set (tl := total_len (take_hint hint 0 (lines (rest f)))) in *.
+    assert (Ltl : tl <= L - k).
+    { destruct J2 as [_ [Kt _]]. fold L in Kt. lia. }
+    split; [reflexivity|]. split; [|exact J4].
+    apply Mk; auto; [apply J4|cbn; lia|cbn].
+    replace (Nat.min (rf_pos f + tl) L) with (k + tl) by (unfold k in *; lia). exact J2.
   - (* next *)
     cbn [ss_step0 ref_step].
     destruct (take_line (rest f)) as [|x l] eqn:E.
     + apply (proj1 (take_line_nil_iff _)) in E.
       assert (kL : k = L) by (rewrite E in Lr; cbn in Lr; lia).
       rewrite kL in I.
-      destruct (ss_next_stop (rf_data f) V (Pl eq_refl) s I) as [s' [N1 [N2 [N3 N4]]]].
+      destruct (ss_next_stop (rf_data f) V s I Ch) as [s' [N1 [N2 [N3 N4]]]].
       rewrite N1. cbn [fst snd]. split; [reflexivity|]. split; [|exact N4].
       apply Mk; auto; [apply N4|congruence|]. fold k. now rewrite kL.
     + assert (NE : take_line (skipn k (rf_data f)) <> []) by (rewrite Hk, E; discriminate).
-      rewrite (ss_next_line (rf_data f) V (Pl eq_refl) s k I NE).
-      pose proof (ss_readline_spec (rf_data f) V (Pl eq_refl) s k I) as [R1 [R2 [R3 R4]]].
+      rewrite (ss_next_line (rf_data f) V s k I Ch NE).
+      pose proof (ss_readline_spec (rf_data f) V s k None I Ch) as [R1 [R2 [R3 R4]]]. cbn [line_result] in R1.
       rewrite Hk, E in *. cbn [fst snd]. split; [reflexivity|]. split; [|exact R4].
       rewrite R1 in R2, R3.
       assert (Lret : length (x :: l) <= L - k).
@@ -218,8 +233,8 @@ Proof.
     destruct (ss_len s) as [s1 n]. cbn [fst snd] in *.
     rewrite T in L2. fold L in L2. fold k in L2.
     assert (D1 : rf_data (ef_stream (ss_buf s1)) = utf8_enc (rf_data f)) by (destruct L2 as [_ [_ [D _]]]; exact D).
-    destruct (ss_iter_spec (rf_data f) V (Pl eq_refl) (S (length (rf_data (ef_stream (ss_buf s1))))) s1 []
-                k L2 ltac:(rewrite D1; now apply lines_fuel))
+    destruct (ss_iter_spec (rf_data f) V (S (length (rf_data (ef_stream (ss_buf s1))))) s1 []
+                k L2 ltac:(destruct L4 as [_ L4]; lia) ltac:(rewrite D1; now apply lines_fuel))
       as [s' [J1 [J2 [J3 J4]]]].
     rewrite J1, Hk. cbn [fst snd app]. rewrite total_len_lines.
     split; [reflexivity|]. split; [|eapply same_cfg_trans; eassumption]. rewrite Lr.
@@ -230,8 +245,8 @@ Proof.
   - (* iteration *)
     cbn [ss_step0 ref_step].
     assert (D1 : rf_data (ef_stream (ss_buf s)) = utf8_enc (rf_data f)) by (destruct I as [_ [_ [D _]]]; exact D).
-    destruct (ss_iter_spec (rf_data f) V (Pl eq_refl) (S (length (rf_data (ef_stream (ss_buf s))))) s []
-                k I ltac:(rewrite D1; now apply lines_fuel))
+    destruct (ss_iter_spec (rf_data f) V (S (length (rf_data (ef_stream (ss_buf s))))) s []
+                k I Ch ltac:(rewrite D1; now apply lines_fuel))
       as [s' [J1 [J2 [J3 J4]]]].
     rewrite J1, Hk. cbn [fst snd app]. rewrite total_len_lines.
     split; [reflexivity|]. split; [|exact J4]. rewrite Lr.
@@ -306,72 +321,30 @@ Qed.
 
 Lemma ss_step_ref f s op :
   SI f s -> ref_pre KString f op = true -> op_valid op ->
-  (is_line_op op = true -> plain (rf_data f)) ->
   snd (ss_step s op) = snd (ref_step f op) /\
   SI (fst (ref_step f op)) (fst (ss_step s op)) /\
   same_cfg s (fst (ss_step s op)).
 Proof.
-  intros I Pre Val Pl. unfold ss_step.
-  pose proof (ss_step0_ref f s op I Pre Val Pl) as [A [B Cf]].
+  intros I Pre Val. unfold ss_step.
+  pose proof (ss_step0_ref f s op I Pre Val) as [A [B Cf]].
   destruct (ss_step0 s op) as [s' o]. cbn [fst snd] in *.
   assert (Ok : ss_ok s' = true).
   { destruct B as [_ [_ [_ [Ok _]]]]. exact Ok. }
   rewrite Ok. cbn [fst snd]. auto.
 Qed.
 
-(* what a call does to the content of the reference file *)
-Lemma ref_step_data f op : ref_pre KString f op = true ->
-  rf_data (fst (ref_step f op)) =
-  match op with Write d => rf_data f ++ d | WriteLines ds => rf_data f ++ concat ds | _ => rf_data f end.
-Proof.
-  intro Pre.
-  destruct op as [d| |[n|]|[n|]|hint| | | |off wh| | | |ds|]; cbn [ref_step fst rf_data advance]; try reflexivity.
-  - cbn in Pre. apply Nat.eqb_eq in Pre. now rewrite (write_at_end f d Pre).
-  - destruct (take_line (rest f)); reflexivity.
-  - destruct (seek_target f off wh <? 0)%Z; reflexivity.
-  - cbn in Pre. apply Nat.eqb_eq in Pre. revert f Pre.
-    induction ds as [|d ds IH]; intros f Pre; cbn [fold_left concat]; [now rewrite app_nil_r|].
-    rewrite IH; rewrite (write_at_end f d Pre); cbn [rf_data rf_pos]; [now rewrite app_assoc|].
-    rewrite app_length. lia.
-Qed.
-
-Lemma plain_of_existsb2 ds : existsb (existsb odd_break) ds = false -> plain (concat ds).
-Proof.
-  induction ds as [|d ds IH]; cbn; intro H; [constructor|].
-  apply orb_false_iff in H as [H1 H2]. apply Forall_app. split; [|now apply IH].
-  clear -H1. induction d as [|x d IHd]; cbn in *; [constructor|].
-  apply orb_false_iff in H1 as [A B]. constructor; auto.
-Qed.
-
-Lemma plain_of_existsb d : existsb odd_break d = false -> plain d.
-Proof.
-  induction d as [|x d IH]; cbn; intro H; [constructor|].
-  apply orb_false_iff in H as [H1 H2]. constructor; auto. now apply IH.
-Qed.
-
 Lemma ss_run_ref ops : forall f s r, SI f s -> Forall op_valid ops ->
-  ((plain (rf_data f) /\ writes_odd_break ops = false) \/ existsb is_line_op ops = false) ->
   ref_run KString f ops = Some r -> ss_run s ops = r.
 Proof.
-  induction ops as [|op ops IH]; intros f s r I Val G R; cbn [ref_run ss_run] in *.
+  induction ops as [|op ops IH]; intros f s r I Val R; cbn [ref_run ss_run] in *.
   - congruence.
   - destruct (ref_pre KString f op) eqn:Pre; [|discriminate].
     inversion Val as [|? ? V1 V2]; subst.
-    assert (Pl : is_line_op op = true -> plain (rf_data f)).
-    { intro L. destruct G as [[G _]|G]; [exact G|]. cbn in G. rewrite L in G. discriminate. }
-    pose proof (ss_step_ref f s op I Pre V1 Pl) as [S1 [S2 S3]].
-    pose proof (ref_step_data f op Pre) as Dt.
+    pose proof (ss_step_ref f s op I Pre V1) as [S1 [S2 S3]].
     destruct (ref_step f op) as [f' o] eqn:E. destruct (ss_step s op) as [s' o'] eqn:E'.
     cbn [fst snd] in *. subst o'.
     destruct (ref_run KString f' ops) as [os|] eqn:R'; [|discriminate].
-    assert (G' : (plain (rf_data f') /\ writes_odd_break ops = false) \/ existsb is_line_op ops = false).
-    { destruct G as [[G1 G2]|G].
-      - left. unfold writes_odd_break in G2. cbn [existsb] in G2. apply orb_false_iff in G2 as [G2 G3].
-        split; [|exact G3]. rewrite Dt. destruct op; try exact G1.
-        * apply Forall_app. split; [exact G1|now apply plain_of_existsb].
-        * apply Forall_app. split; [exact G1|now apply plain_of_existsb2].
-      - right. cbn [existsb] in G. apply orb_false_iff in G. tauto. }
-    rewrite (IH f' s' os S2 V2 G' R').
+    rewrite (IH f' s' os S2 V2 R').
     destruct S2 as [_ [_ [T _]]]. rewrite T. congruence.
 Qed.
 
@@ -383,20 +356,17 @@ Qed.
 
 Theorem string_refines_reference max chunk ops r :
   1 <= chunk -> Forall op_valid ops ->
-  writes_odd_break ops = false \/ existsb is_line_op ops = false ->
   ref_run KString rf_empty ops = Some r -> ss_run (ss_init max chunk) ops = r.
 Proof.
-  intros Ch Val G R. apply (ss_run_ref ops rf_empty); auto using SI_init.
-  destruct G as [G|G]; [left|right; exact G]. split; [constructor|exact G].
+  intros Ch Val R. apply (ss_run_ref ops rf_empty); auto using SI_init.
 Qed.
 
 Corollary string_max_independent max1 max2 chunk1 chunk2 ops r :
   1 <= chunk1 -> 1 <= chunk2 -> Forall op_valid ops ->
-  writes_odd_break ops = false \/ existsb is_line_op ops = false ->
   ref_run KString rf_empty ops = Some r ->
   ss_run (ss_init max1 chunk1) ops = ss_run (ss_init max2 chunk2) ops.
 Proof.
-  intros C1 C2 Val G R.
-  now rewrite (string_refines_reference max1 chunk1 ops r C1 Val G R),
-              (string_refines_reference max2 chunk2 ops r C2 Val G R).
+  intros C1 C2 Val R.
+  now rewrite (string_refines_reference max1 chunk1 ops r C1 Val R),
+              (string_refines_reference max2 chunk2 ops r C2 Val R).
 Qed.
